@@ -709,6 +709,7 @@ pub fn collect(tcx: TyCtxt<'_>) -> J {
                 traits.push(J::obj(vec![
                     ("path", J::Str(tcx.def_path_str(did))),
                     ("public", J::Bool(tcx.visibility(did).is_public())),
+                    ("generics", generics_j(tcx, did)),
                     (
                         "items",
                         J::Arr(
